@@ -12,7 +12,7 @@ TECHNIQUE = "Hypothesis-generated screens, k-fold save/load round trip compared 
 RULE = (
     "screens (>=1 row, arity 1..3) with unicode/empty/unequal-length names, '' control, any plate-atomic mask, observations "
     "incl. NaN/denormal/-0.0/inf behind and in front of the mask; half of them sub-screens carrying the mappings of a strict "
-    "superset; 1..3 consecutive save/load cycles; 4% of the cases are long screens (1000..9001 rows, thorough tier also 65537/70001; up to 20000 treatment names, 5000 samples, 4500 plates) whose longest and multi-byte names sit at drawn, mostly late, positions; ExperimentSpace.from_screen saved/loaded too. Non-trivial = mapping strictly "
+    "superset; 1..3 consecutive save/load cycles, in half the cases onto a path that already holds an archive of exactly the same shapes with shorter names (or of the same rows with smaller mappings); 4% of the cases are long screens (1000..9001 rows, thorough tier also 65537/70001; up to 20000 treatment names, 5000 samples, 4500 plates) whose longest and multi-byte names sit at drawn, mostly late, positions; ExperimentSpace.from_screen saved/loaded too. Non-trivial = mapping strictly "
     "larger than the rows' own encoding, or a non-ASCII or empty name; afterwards the same object is changed in place (set_observed, Plate.merge), saved and loaded again. distinct = distinct case JSON."
 )
 ASSUMPTIONS = [
@@ -83,7 +83,7 @@ def _case(draw):
     if draw(st.integers(0, 24)) == 0:
         return {"long": draw(_long()), "cycles": 1, "superset": False}
     sc = draw(S.screen_case(min_rows=1, max_rows=12, obs=S.any_obs))
-    case = {"screen": sc, "cycles": draw(st.integers(1, 3)), "superset": draw(st.booleans())}
+    case = {"screen": sc, "cycles": draw(st.integers(1, 3)), "superset": draw(st.booleans()), "occupied": draw(st.booleans())}
     if case["superset"]:
         case["extra"] = draw(S.screen_case(arity=sc["arity"], control=sc["control"], min_rows=1, max_rows=6, obs=S.any_obs))["rows"]
     return case
@@ -140,6 +140,35 @@ def compare_screens(a, b, prefix, plate_mapping=True):
         require(S.mapping_equal(a.plate_mapping, b.plate_mapping), prefix + ".plate_mapping", "plate mapping changed")
 
 
+def _short_sibling(s, control):
+    """another screen of exactly the same shapes (rows, arity, mapping sizes) whose names are all SHORTER: every distinct name is
+    renamed to a one- or two-letter code (control name kept); what an output path may hold from an earlier, different run"""
+    from batchie.data import Screen
+
+    def renamer(values, keep=()):
+        codes = {}
+        for v in sorted({str(x) for x in np.asarray(values).ravel()}):
+            codes[v] = v if v in keep else "%s" % (chr(97 + len(codes) % 26) + ("" if len(codes) < 26 else str(len(codes) // 26)))
+        return lambda a: np.array([codes[str(x)] for x in np.asarray(a).ravel()], dtype=str).reshape(np.asarray(a).shape)
+
+    tn, td, ti = s.treatment_mapping
+    sn, si = s.sample_mapping
+    rt = renamer(np.concatenate([np.asarray(tn).ravel(), np.asarray(s.treatment_names).ravel()]), keep=(str(control),))
+    rs = renamer(np.concatenate([np.asarray(sn).ravel(), np.asarray(s.sample_names).ravel()]))
+    rp = renamer(s.plate_names)
+    return Screen(
+        treatment_names=rt(s.treatment_names),
+        treatment_doses=np.asarray(s.treatment_doses).copy(),
+        sample_names=rs(s.sample_names),
+        plate_names=rp(s.plate_names),
+        observations=np.asarray(s.observations).copy(),
+        observation_mask=np.asarray(s.observation_mask).copy(),
+        control_treatment_name=control,
+        treatment_mapping=(rt(tn), np.asarray(td).copy(), np.asarray(ti).copy()),
+        sample_mapping=(rs(sn), np.asarray(si).copy()),
+    )
+
+
 def check_case(case):
     from batchie.data import Screen, ExperimentSpace
 
@@ -160,6 +189,13 @@ def check_case(case):
             paths.append(p)
             if k == 0 and case["superset"]:
                 own.save_h5(p)  # the path already holds another screen (same rows, its own smaller mappings): saving replaces it
+            elif case.get("occupied") and "long" not in case:
+                try:
+                    sib = _short_sibling(cur, sc["control"])
+                except ValueError:
+                    sib = None  # (renaming collides with the control rule for this screen: no sibling)
+                if sib is not None:
+                    sib.save_h5(p)  # ... or an archive of exactly the same shapes with shorter names
             cur.save_h5(p)
             nxt = Screen.load_h5(p)
             compare_screens(s0, nxt, "roundtrip%d" % (k + 1))
@@ -191,6 +227,11 @@ def check_case(case):
         es = ExperimentSpace.from_screen(s0)
         p = tmp.fresh("space.h5")
         paths.append(p)
+        if case.get("occupied") and "long" not in case:
+            try:
+                ExperimentSpace.from_screen(_short_sibling(s0, sc["control"])).save_h5(p)
+            except ValueError:
+                pass
         es.save_h5(p)
         es2 = ExperimentSpace.load_h5(p)
         require(S.mapping_equal(es.treatment_mapping, es2.treatment_mapping), "space.treatment_mapping", "experiment space treatment mapping changed by save/load")
